@@ -73,6 +73,7 @@ type Obligation struct {
 
 	Res solveResult
 	All []solveResult
+	Cross []string // thorough: answers of the other solvers on the whole goal
 }
 
 // rdEvent records one modelled Read/ReadFull call (for building scripted readers in replays).
